@@ -15,6 +15,7 @@ mod buf2;
 mod pnm;
 mod obj;
 mod tex;
+mod target;
 
 use std::io::{BufRead, BufWriter, Write};
 
@@ -58,6 +59,7 @@ fn subsystem(name: &str) -> Option<(GenFn, ExecFn)> {
         "pnm" => (pnm::gen, pnm::exec),
         "obj" => (obj::gen, obj::exec),
         "tex" => (tex::gen, tex::exec),
+        "target" => (target::gen, target::exec),
         _ => return None,
     })
 }
